@@ -421,6 +421,8 @@ package core
 //@   call WithState#1 assert [not-terminated] $state == model.DiamondCanceled && d.DiamondDescriptor.State != model.DiamondCanceled && d.DiamondDescriptor.State != model.DiamondDone
 //@   call uploadDescriptor#1 assert [writes-canceled] $d.DiamondDescriptor.State == model.DiamondCanceled
 //@   ensures [propagate] de_set && de != nil ==> err != nil
+//@   call uploadDescriptor#1 bind ue = $ret0
+//@   ensures [losing-the-final-write-is-a-failure] ue_set && ue != nil ==> err != nil
 
 // commit: readiness is checked before any metadata write; the bundle descriptor is written after
 // the file lists; diamond-done only after a successful commit
@@ -435,6 +437,10 @@ package core
 //@ func (*Diamond).implCommit$2
 //@   call uploadDescriptor#1 assert [done-state] $d.DiamondDescriptor.State == model.DiamondDone
 //@   call uploadDescriptor#1 assert [only-on-success] old(err) == nil
+// the create-if-absent write of the done state is what arbitrates between commits (and cancels) that all
+// passed the readiness check: the one whose write is refused must report failure, not success
+//@   call uploadDescriptor#1 bind de = $ret0
+//@   ensures [losing-the-final-write-is-a-failure] de_set && de != nil ==> err != nil
 
 // a split is created/restarted only on a diamond that is still open; a completed split is refused
 //@ func CreateSplit
@@ -450,6 +456,9 @@ package core
 //@   call Upload#1 bind ue = $ret1
 //@   call uploadDescriptor#1 assert [after-lists] ue_set && ue == nil
 //@   ensures [done-refused] old(s.SplitDescriptor.State) == model.SplitDone ==> ret0 != nil
+//@   call uploadDescriptor#1 bind de = $ret0
+//@   ensures [losing-the-final-write-is-a-failure] de_set && de != nil ==> ret0 != nil
+//@   call uploadBundleFiles#1 assert [results-handed-over-not-queued] cap($chans.filePacked) == 0 && cap($chans.error) == 0
 
 // ---- purge (C13, C14). Sequential contracts on the functions that decide what is indexed and what
 // is deleted; histories (interrupt/resume, interleaved uploads) are not decided, see DESIGN.md. -------
